@@ -161,9 +161,12 @@ def do_check(mod, prop, tier, seed, repo, workdir, jobs):
             {"id": f["id"], "mechanism": f["mechanism"], "witness": f.get("witness")} for f in open_known
             if f.get("witness") is not None]))
     plan = mod.plan(tier, seed)
+    orders = getattr(mod, "PRELOAD_NETWORK_ORDERS", None)
     for i, s in enumerate(plan):
         d = dict(base, mode="shard", shard=i)
         d.update(s)
+        if orders and "preload_networks" not in d and i % 3:
+            d["preload_networks"] = orders[(i % 3 - 1 + seed) % len(orders)]
         specs.append(d)
     default_timeout = getattr(mod, "TIMEOUT", {}).get(tier, 900 if tier == "quick" else 6 * 3600)
     results = run_specs(specs, repo, workdir, jobs, default_timeout)
